@@ -60,6 +60,7 @@ func (e *Engine) verifyFunction(fn *ssa.Function, con *Contract, pathLimit int) 
 	st.clock = Term{"u_clock0", SInt}
 	st.clock0 = st.clock
 	st.assume(Cmp(">", st.clock, IntLit(0)))
+	st.assume(Not(Term{fmt.Sprintf("(select %s 0)", st.alloc.Name), SBool})) // nil is not an object
 	fr := &Frame{fn: fn, vals: map[ssa.Value]Val{}, block: fn.Blocks[0], visited: map[*ssa.BasicBlock]bool{}}
 	st.stack = []*Frame{fr}
 	env := &Env{x: x, st: st, vars: map[string]TV{}, lets: map[string]*Expr{}, frame: fr}
